@@ -9,6 +9,7 @@ import (
 	"bytes"
 	"encoding/json"
 	"errors"
+	"flag"
 	"fmt"
 	"os"
 	"path/filepath"
@@ -21,6 +22,7 @@ import (
 
 	"verif/fsched"
 	"verif/kit"
+	"verif/pmode"
 	"verif/sched"
 	"verif/virt/vos"
 	"verif/virt/vsync"
@@ -107,41 +109,94 @@ func (in *instance) body() {
 	if in.sc.Init != absent {
 		os.WriteFile(path, []byte(in.sc.Init), 0o666)
 	}
+	pmode.Gen = 0
 	for ti, prog := range in.sc.Threads {
 		ti, prog := ti+1, prog
+		if in.sc.pmode() {
+			// P-mode: the caller is a separate OS process
+			sched.Go(fmt.Sprintf("P%d", ti), func() {
+				spec, _ := json.Marshal(pchildSpec{in.dir, prog})
+				var cur *event
+				msg := pmode.Proxy([]string{"-pchild", string(spec)}, func(kind, rest string) {
+					switch kind {
+					case "I":
+						var o op
+						json.Unmarshal([]byte(rest), &o)
+						in.clock++
+						cur = &event{Thread: ti, Op: o, Call: in.clock}
+						in.hist = append(in.hist, cur)
+					case "R":
+						var res struct{ Out, Err string }
+						json.Unmarshal([]byte(rest), &res)
+						in.clock++
+						cur.Out, cur.Err, cur.Ret, cur.Done = res.Out, res.Err, in.clock, true
+					}
+				})
+				if msg != "" {
+					in.hist = append(in.hist, &event{Thread: ti, Op: op{Kind: "child"}, Err: msg})
+				}
+			})
+			continue
+		}
 		sched.Go(fmt.Sprintf("T%d", ti), func() {
 			for _, o := range prog {
 				in.clock++
 				ev := &event{Thread: ti, Op: o, Call: in.clock}
 				in.hist = append(in.hist, ev)
-				switch o.Kind {
-				case "read":
-					data, err := lockedfile.Read(path)
-					if err != nil {
-						ev.Err = err.Error()
-						if errors.Is(err, os.ErrNotExist) {
-							ev.Out = absent
-						} else {
-							ev.Out = "ERR:" + err.Error()
-						}
-					} else {
-						ev.Out = string(data)
-					}
-				case "write":
-					if err := lockedfile.Write(path, strings.NewReader(o.Arg), 0o666); err != nil {
-						ev.Err = err.Error()
-					}
-				default:
-					if err := lockedfile.Transform(path, transformFunc(o, &ev.Out)); err != nil {
-						ev.Err = err.Error()
-					}
-				}
+				ev.Out, ev.Err = perform(path, o)
 				in.clock++
 				ev.Ret = in.clock
 				ev.Done = true
 			}
 		})
 	}
+}
+
+// perform runs one operation on the real lockedfile package.
+func perform(path string, o op) (out, errText string) {
+	switch o.Kind {
+	case "read":
+		data, err := lockedfile.Read(path)
+		if err != nil {
+			if errors.Is(err, os.ErrNotExist) {
+				return absent, err.Error()
+			}
+			return "ERR:" + err.Error(), err.Error()
+		}
+		return string(data), ""
+	case "write":
+		if err := lockedfile.Write(path, strings.NewReader(o.Arg), 0o666); err != nil {
+			return "", err.Error()
+		}
+		return "", ""
+	default:
+		if err := lockedfile.Transform(path, transformFunc(o, &out)); err != nil {
+			return out, err.Error()
+		}
+		return out, ""
+	}
+}
+
+const pmodeTag = " [one process per caller]"
+
+func (s scenario) pmode() bool { return strings.HasSuffix(s.Name, pmodeTag) }
+
+type pchildSpec struct {
+	Dir  string `json:"dir"`
+	Prog []op   `json:"prog"`
+}
+
+func pchildMain(spec pchildSpec) {
+	r := pmode.Child()
+	path := filepath.Join(spec.Dir, "f")
+	for _, o := range spec.Prog {
+		js, _ := json.Marshal(o)
+		r.Send("I %s", js)
+		out, errText := perform(path, o)
+		res, _ := json.Marshal(struct{ Out, Err string }{out, errText})
+		r.Send("R %s", res)
+	}
+	r.Finish()
 }
 
 // ---------- sequential specification ----------
@@ -249,6 +304,9 @@ func judge(in *instance, e *sched.Exec) (string, string) {
 		return "livelock", "execution exceeded the step horizon"
 	}
 	for _, ev := range in.hist {
+		if ev.Op.Kind == "child" {
+			return "child-process", ev.Err
+		}
 		if !ev.Done {
 			return "call-did-not-return", fmt.Sprintf("T%d %s did not return", ev.Thread, ev.Op)
 		}
@@ -315,7 +373,7 @@ type shardResult struct {
 func vkey(class string, sc scenario) string {
 	if class == "creation-window" {
 		// identified by the scenario family, not by one schedule
-		return "creation-window scenario=" + sc.Name
+		return "creation-window scenario=" + strings.TrimSuffix(sc.Name, pmodeTag)
 	}
 	return fmt.Sprintf("%s scenario=%q", class, sc.String())
 }
@@ -398,6 +456,18 @@ func scenarios(th bool) []scenario {
 		{"creation append||R", absent, [][]op{{a1}, {rd}}, -1},
 		{"creation append||append", absent, [][]op{{a1}, {a2}}, -1},
 		{"creation W||W", absent, [][]op{{wA}, {wB}}, -1},
+	}
+	pb := 2
+	if th {
+		pb = -1
+	}
+	for _, sc := range scs {
+		if len(sc.Threads) == 2 && len(sc.Threads[0]) == 1 && len(sc.Threads[1]) == 1 {
+			if !th && (sc.Init == absent || strings.HasPrefix(sc.Name, "empty") || strings.HasPrefix(sc.Name, "shrink||append")) {
+				continue
+			}
+			scs = append(scs, scenario{sc.Name + pmodeTag, sc.Init, sc.Threads, pb})
+		}
 	}
 	if th {
 		scs = append(scs,
@@ -504,8 +574,18 @@ func runFault(root string, f fcase) (string, []string) {
 	return "", ops
 }
 
+var pchildFlag = flag.String("pchild", "", "internal: run one caller as a P-mode child process")
+
 func main() {
 	r := kit.Start("C07", "model_checking")
+	if *pchildFlag != "" {
+		var spec pchildSpec
+		if err := json.Unmarshal([]byte(*pchildFlag), &spec); err != nil {
+			os.Exit(8)
+		}
+		pchildMain(spec)
+		return
+	}
 	root, err := os.MkdirTemp(os.Getenv("VERIF_SCRATCH"), "c07")
 	if err != nil {
 		kit.Harness("mkdtemp: %v", err)
@@ -539,6 +619,7 @@ func main() {
 	scs := scenarios(r.Thorough())
 	var tot shardResult
 	var per []string
+	var pmodeExecs int64
 	outcomeTotal := 0
 	r.Sharded(len(scs), func(job int) any { return explore(r, root, scs[job]) }, func(job int, raw json.RawMessage) {
 		var sr shardResult
@@ -549,6 +630,9 @@ func main() {
 			kit.Harness("nondeterministic replay in scenario %s", scs[job])
 		}
 		tot.Executions += sr.Executions
+		if scs[job].pmode() {
+			pmodeExecs += sr.Executions
+		}
 		tot.Steps += sr.Steps
 		tot.Capped = tot.Capped || sr.Capped
 		if sr.MaxDepth > tot.MaxDepth {
@@ -613,11 +697,12 @@ func main() {
 	r.Set("traces_validated_against_impl", tot.Executions+faults)
 	r.Set("executions", tot.Executions)
 	r.Set("fault_runs", faults)
+	r.Set("executions_with_one_os_process_per_caller", pmodeExecs)
 	r.Set("scenarios", per)
 	r.Set("distinct_outcomes_summed", outcomeTotal)
 	r.Set("max_decisions_in_one_execution", tot.MaxDepth)
 	r.Set("exhaustive", !tot.Capped && !r.Capped())
 	r.Set("explanation", "schedule part: every schedule (2 callers) or every schedule within the preemption bound (3 callers, and 2 callers with two calls each) of Read/Write/Transform at the granularity of open/flock/read/write/truncate/unlock/close on the real code and kernel; each complete history is checked for linearizability against an atomic register with read-modify-write by porcupine and by brute force (they must agree). states = scheduling steps visited (stateless search). fault part: Transform for |old|,|new| in {0,1,3,8}^2, t succeeding or failing, with each file operation failing and each write short (4 lengths), one fault per run")
-	r.Assume("threads with private descriptors stand for processes (flock is per open file description); P-mode replay is not built")
+	r.Assume("in most scenarios threads with private descriptors stand for processes (flock is per open file description); the scenarios tagged [one process per caller] re-explore the two-caller cases with every caller in its own OS process driven over pipes by the same scheduler")
 	r.Finish()
 }
